@@ -23,6 +23,10 @@
  *   kill_w=J:F             the J-th tracked write lets F bytes through (clamped) and then the process _exit(137)s
  *
  * Everything not matched falls through to the real libc function.
+ *
+ * Caller threads (simenv_sched_*): threads of the harness that have joined the scheduler run one at a
+ * time; at every intercepted file call of such a thread a seeded PRNG decides which of them proceeds.
+ * The threads are real, the choice of who runs is not: one seed = one interleaving of their file calls.
  */
 #define _GNU_SOURCE
 #include <dlfcn.h>
@@ -270,6 +274,83 @@ void simenv_trace(char *buf, size_t cap) {
     pthread_mutex_unlock(&g_mu);
 }
 
+/* ---------- cooperative scheduler for caller threads ---------- */
+#define SCHED_MAX 8
+static pthread_mutex_t s_mu = PTHREAD_MUTEX_INITIALIZER;
+static pthread_cond_t s_cv = PTHREAD_COND_INITIALIZER;
+static volatile int s_on;
+static int s_n, s_joined, s_turn = -1;
+static int s_state[SCHED_MAX]; /* 0 not joined, 1 runnable, 2 left */
+static uint64_t s_rng, s_switches, s_points;
+static __thread int s_me = -1;
+
+static int sched_pick(void) {
+    int ids[SCHED_MAX], k = 0;
+    for (int i = 0; i < s_n; i++)
+        if (s_state[i] == 1) ids[k++] = i;
+    if (!k) return -1;
+    uint64_t z = (s_rng += 0x9E3779B97F4A7C15ULL);
+    z = (z ^ (z >> 30)) * 0xBF58476D1CE4E5B9ULL;
+    z = (z ^ (z >> 27)) * 0x94D049BB133111EBULL;
+    z ^= z >> 31;
+    return ids[z % (uint64_t)k];
+}
+void simenv_sched_begin(int n, uint64_t seed) {
+    pthread_mutex_lock(&s_mu);
+    s_n = n > SCHED_MAX ? SCHED_MAX : n;
+    s_joined = 0;
+    s_turn = -1;
+    s_rng = seed;
+    s_switches = s_points = 0;
+    memset(s_state, 0, sizeof s_state);
+    s_on = 1;
+    pthread_mutex_unlock(&s_mu);
+}
+/* blocks until every thread has joined and the scheduler has given this one the turn */
+void simenv_sched_join(int id) {
+    pthread_mutex_lock(&s_mu);
+    s_me = id;
+    s_state[id] = 1;
+    if (++s_joined == s_n) {
+        s_turn = sched_pick();
+        pthread_cond_broadcast(&s_cv);
+    }
+    while (s_turn != id) pthread_cond_wait(&s_cv, &s_mu);
+    pthread_mutex_unlock(&s_mu);
+}
+static void sched_point(int fd) {
+    if (!s_on || s_me < 0 || (fd >= 0 && fd <= 2)) return;
+    pthread_mutex_lock(&s_mu);
+    s_points++;
+    int nxt = sched_pick();
+    if (nxt >= 0 && nxt != s_me) {
+        s_switches++;
+        s_turn = nxt;
+        pthread_cond_broadcast(&s_cv);
+        while (s_turn != s_me) pthread_cond_wait(&s_cv, &s_mu);
+    }
+    pthread_mutex_unlock(&s_mu);
+}
+void simenv_sched_leave(void) {
+    pthread_mutex_lock(&s_mu);
+    if (s_me >= 0) {
+        s_state[s_me] = 2;
+        s_me = -1;
+        s_turn = sched_pick();
+        pthread_cond_broadcast(&s_cv);
+    }
+    pthread_mutex_unlock(&s_mu);
+}
+/* returns the number of context switches; out2 (if not NULL) receives the number of scheduling points */
+uint64_t simenv_sched_end(uint64_t *out2) {
+    pthread_mutex_lock(&s_mu);
+    s_on = 0;
+    uint64_t r = s_switches;
+    if (out2) *out2 = s_points;
+    pthread_mutex_unlock(&s_mu);
+    return r;
+}
+
 /* ---------- getrandom ---------- */
 static uint64_t splitmix(void) {
     uint64_t z = (g_rand_state += 0x9E3779B97F4A7C15ULL);
@@ -333,6 +414,7 @@ static int path_tracked(int dirfd, const char *path) {
 }
 
 static int do_open(int dirfd, const char *path, int flags, mode_t mode) {
+    sched_point(-1);
     int tracked = path_tracked(dirfd, path);
     if (tracked) {
         pthread_mutex_lock(&g_mu);
@@ -373,6 +455,7 @@ static int is_tracked(int fd) { return fd >= 0 && fd < MAXFD && g_tracked[fd]; }
 
 ssize_t write(int fd, const void *buf, size_t len) {
     resolve();
+    sched_point(fd);
     if (!is_tracked(fd)) return real_write(fd, buf, len);
     pthread_mutex_lock(&g_mu);
     ++g_cnt[C_WRITE];
@@ -435,6 +518,7 @@ ssize_t write(int fd, const void *buf, size_t len) {
 
 ssize_t read(int fd, void *buf, size_t len) {
     resolve();
+    sched_point(fd);
     if (!is_tracked(fd)) return real_read(fd, buf, len);
     pthread_mutex_lock(&g_mu);
     ++g_cnt[C_READ];
@@ -510,6 +594,7 @@ off64_t lseek64(int fd, off64_t off, int whence) {
 
 int close(int fd) {
     resolve();
+    sched_point(fd);
     if (is_tracked(fd)) {
         g_tracked[fd] = 0;
         pthread_mutex_lock(&g_mu);
